@@ -3,7 +3,7 @@
    Value layer (JSON documents as serde_json sees them); the YAML *text* layer is not modelled and
    is exercised by the K-serde text round trips only (level for the YAML half: partial). *)
 From VV.M1 Require Import Validate Revision.
-From VV.SERDE Require Import Serde Config CorrSerde RoundTrip RevisionP.
+From VV.SERDE Require Import Serde Config CorrSerde RoundTrip RevisionP EqbSound.
 
 (* ---- round trip: MigrationPlan (all 13 action kinds), TableDef, VespertideConfig ---- *)
 Theorem C12_decode_encode_plan : forall p, im_plan p = true -> decode_plan (encode_plan p) = Some p.
@@ -105,6 +105,12 @@ Check C12_revision_enum_fill_refuted :
   exists np baseline w,
     written_of np baseline = Some w /\
     validate_migration_plan w = Err (VInvalidEnumDefault "t" "status" "bogus").
+
+(* ---- the comparison K-serde uses (json_eqb (encode v) <what serde_json wrote>) decides equality ---- *)
+Theorem C12_json_eqb_sound : forall a b, json_eqb a b = true -> a = b.
+Proof. exact json_eqb_eq. Qed.
+Print Assumptions C12_json_eqb_sound.
+Check C12_json_eqb_sound : forall a b, json_eqb a b = true -> a = b.
 
 (* ---- non-vacuity ---- *)
 Example C12_nonvacuous_plan :
